@@ -17,6 +17,7 @@ in the `envconc` stream.
 import Anko.Gen.EnvLocks
 import Anko.Model.Lts
 import Anko.Model.EnvApi
+import Anko.Props.Tie.EnvFlow
 
 namespace Anko.C13
 open Anko
@@ -215,5 +216,14 @@ theorem copy_is_consistent_snapshot (h : Heap) (i : Nat) (s : Scope) (hs : h[i]?
 
 example : run Lts.init [.enterR, .enterR, .exitR, .exitR, .enterW, .exitW] = some ⟨0, 0⟩ := by decide
 example : run Lts.init [.enterW, .enterR] = none := by decide
+
+/-! ### Shared source ties
+
+The code this property is anchored in is also written down, leaf statement by leaf statement, by the tables below (each decided once in
+Props/Tie, `decide +kernel`, against the table regenerated from /repo on this run). A change of that code breaks the tie by name here too, and the check of
+this property then searches for a failing input - so a change that breaks this property through code whose primary table belongs to another
+property is not overlooked. -/
+/-- the environment API (env/*.go) -/
+theorem source_tie_EnvFlow : Gen.EnvFlow.leaves = Tables.envFlow := Tie.envFlow
 
 end Anko.C13
